@@ -212,8 +212,8 @@ func Options(info constraint.GkrInfo, h *Hooks, tr *Trace) []solver.Option {
 			use = clone(ins)
 			h.MutateIns(use)
 		}
-		liedIns = use
-		tr.UsedIns = clone(use)
+		liedIns = clone(use) // the solver reuses the ins buffer after the hint returns
+		tr.UsedIns = liedIns
 		if err := cs.GkrSolveHint(info, &data)(m, use, outs); err != nil {
 			return err
 		}
